@@ -6,6 +6,7 @@
 # With IN_REPO=1 the change is instead applied to /repo itself and undone straight afterwards.
 set -u
 D=$(readlink -f "$1"); shift
+VDIR=$(cd "$(dirname "$(readlink -f "$0")")/.." && pwd)
 export GOFLAGS=-mod=mod GOPROXY=off GOSUMDB=off GOTOOLCHAIN=local
 PROP=$(jq -r .property "$D/meta.json")
 DEST=$(jq -r .demo_dest "$D/meta.json")
@@ -27,7 +28,7 @@ if [ "${SKIP_VALIDATE:-0}" != 1 ]; then
 else
   ( cd "$W" && git apply "$D/patch.diff" ) || { echo "RESULT $D patch-does-not-apply"; exit 2; }
 fi
-cd /verif
+cd "$VDIR"
 for c in "${CHECKS[@]}"; do
   s=$(date +%s)
   if [ "${IN_REPO:-0}" = 1 ]; then
